@@ -23,7 +23,9 @@ ASSUMPTIONS = [
     "writer facet: for orbits not given in TLE form / TEME frame the elements to be found in the text are those of "
     "orbit.copy(form='TLE', frame='TEME') (form and frame conversions are C01/C02's subject)",
     "EOP configuration missing/pass (epochs 1957-2056 lie outside the tables); dates UTC-labelled",
-    "atheris campaign of the design (fuzz/tle_target.py) is optional and not part of this check's verdict",
+    "fuzz facet: quick tier = the 32-entry fuzz corpus through the target's oracle; thorough tier = 4 x 500000 atheris "
+    "executions of vf/fuzz/tle_target.py (reported as skipped, never as a violation, if atheris is not importable "
+    "from /verif/.deps); exception-type leaks on malformed-but-checksum-valid lines are counted, not failed",
 ]
 LEVEL_TEXT = "exploration"
 LEVEL_NOTE = ("Randomised exploration of the field grid with boundary mass per field; per generated TLE the "
@@ -639,6 +641,67 @@ def check_from_string(case):
     return dict(nt=bool(damaged) and len(expected) > 0, cls=cls)
 
 
+# ------------------------------------------------------------------ fuzz (atheris, thorough tier)
+
+FUZZ_RUNS = 500000
+
+
+def fuzz_runner(shard, nshards, tier, stats):
+    """Shard 0 always sends the fuzz corpus itself through the target's oracle.  In the thorough
+    tier every shard runs `vf.fuzz.tle_target` under atheris (-runs, not time; seed from
+    VERIF_SEED) in a child process and yields the crashing inputs, which `check_fuzz` then
+    re-executes without atheris (so a crash file is an ordinary replay case).  If atheris cannot
+    be imported the campaign is reported as skipped; that is never a violation."""
+    import glob
+    import os
+    import re
+    import shutil
+    import subprocess
+    import sys
+    import tempfile
+
+    from .. import core
+    from ..fuzz import tle_target
+
+    if shard == 0:
+        for k in range(len(tle_target.corpus())):
+            yield dict(data=[k])
+    if tier != "thorough":
+        return
+    deps = os.path.join(core.HERE, ".deps")
+    envv = dict(os.environ, PYTHONPATH=os.pathsep.join([deps, core.HERE]))
+    probe = subprocess.run([sys.executable, "-c", "import atheris"], env=envv, capture_output=True)
+    if probe.returncode != 0:
+        stats.extra["fuzz_skipped"] = 1
+        return
+    seed = core.shard_seed(os.environ.get("VERIF_SEED", "1") or "1", "C12", "fuzz", shard)
+    tmp = tempfile.mkdtemp(prefix="vf-fuzz-")
+    try:
+        r = subprocess.run([sys.executable, "-m", "vf.fuzz.tle_target", f"-runs={FUZZ_RUNS}", f"-seed={seed}",
+                            f"-artifact_prefix={tmp}/", "-max_len=64"], cwd=core.HERE, env=envv,
+                           capture_output=True, text=True, timeout=3000)
+        m = re.findall(r"^#(\d+)\s", r.stderr, flags=re.M)
+        stats.extra["fuzz_execs"] = int(m[-1]) if m else 0
+        leaks = re.search(r"LEAKS (\{.*\})", r.stderr)
+        if leaks and leaks.group(1) != "{}":
+            stats.extra["fuzz_exception_type_leaks"] = leaks.group(1)
+        crashes = sorted(glob.glob(os.path.join(tmp, "crash-*")))
+        if r.returncode != 0 and not crashes:
+            raise RuntimeError(f"atheris run failed without a crash file:\n{r.stderr[-2000:]}")
+        for path in crashes:
+            with open(path, "rb") as fh:
+                yield dict(data=list(fh.read()))
+    finally:
+        shutil.rmtree(tmp, ignore_errors=True)
+
+
+def check_fuzz(case):
+    from ..fuzz import tle_target
+
+    label = tle_target.one_input(bytes(case["data"]))
+    return dict(nt=label == "valid", cls=[label])
+
+
 # ------------------------------------------------------------------ known findings
 
 
@@ -678,7 +741,7 @@ FINDINGS = {
 FACETS = [
     Facet("text_roundtrip", lambda s, t: rt_case(), check_text_roundtrip, setup=_eop,
           rule="element number >= 1000 or ndot < 0 or exponent outside -3..-5 or empty designator",
-          quick=(6, 900), thorough=(16, 12000)),
+          quick=(6, 900), thorough=(16, 10000)),
     Facet("fields", lambda s, t: fields_case(), check_fields, setup=_eop,
           rule="same rule; two thirds of the cases use non-canonical legal encodings",
           quick=(6, 700), thorough=(16, 8000)),
@@ -688,8 +751,11 @@ FACETS = [
     Facet("reject", lambda s, t: reject_case(), check_reject, setup=_eop,
           rule="same rule as text_roundtrip; per case all ~900 digit replacements, ~140 deletions, ~270 "
                "insertions, 28 renumberings and 12 paddings are tried",
-          quick=(8, 40), thorough=(16, 600)),
+          quick=(8, 40), thorough=(16, 400)),
     Facet("from_string", lambda s, t: fs_case(), check_from_string, setup=_eop,
           rule="at least one damaged line and one valid entry in the text",
-          quick=(8, 250), thorough=(16, 4000)),
+          quick=(8, 250), thorough=(16, 3000)),
+    Facet("fuzz", check=check_fuzz, runner=fuzz_runner, setup=_eop,
+          rule="the edited text is well-formed for the strict column parser (checked against it and re-written)",
+          quick=(1, 0), thorough=(4, FUZZ_RUNS)),
 ]
